@@ -59,7 +59,7 @@ def gen_csv(rng, n, tier, h=0):
             e, nn, t = rng.choice(PERMS[3]); u = -1
         else:
             e, nn = rng.choice(PERMS[2]); u = -1; t = -1
-        out.append({'srid': srid, 'pts': [rand_xyz(rng, srid) for _ in range(k)], 'T': [rand_time(rng) for _ in range(k)], 'ids': [e, nn, u, t], 'sep': rng.choice([',', ';', '|', '\t']), 'h': h if h == 0 else rng.choice([1, 1, 2, 3, 3]),
+        out.append({'srid': srid, 'pts': [rand_xyz(rng, srid) for _ in range(k)], 'T': [rand_time(rng) for _ in range(k)], 'ids': [e, nn, u, t], 'sep': rng.choice([',', ';', '|', '\t', ',', ';', 'c', 'b', 's']), 'h': h if h == 0 else rng.choice([1, 1, 2, 3, 3]),
                     'prior': rng.choice([None, None, None, 'export', 'text'])})
         if t >= 0 and rng.random() < 0.15:
             # another timestamp layout, selected for printing and for reading as the API allows (two-digit years are those of 2000..2099; ISO-like order); oracle only
